@@ -353,6 +353,24 @@ def bfPilotStates (anyEligible : Bool) (c : BFCfg) (s : S) (ups : List (Nat × O
       | (s', outs) => (s', outs, none)
     else ({ s with pilots := ps }, [], none)
 
+/-- `_base_state_cb` on ONE notification that names pilots and tasks: with `pilotsFirst` (the order of the two calls, read
+    from the source by the translator) the pilot states are recorded - and the pass they trigger runs - before the task
+    notifications are digested; the alternative shown for contrast digests the tasks first.  An error ends the callback. -/
+def bfMixed (anyEligible pilotsFirst : Bool) (c : BFCfg) (execVal : Nat) (s : S)
+    (ups : List (Nat × Option Nat)) (tus : List (Nat × Option Nat × Nat × Nat)) : Res :=
+  if pilotsFirst then
+    match bfPilotStates anyEligible c s ups with
+    | (s1, o1, some e) => (s1, o1, some e)
+    | (s1, o1, none)   =>
+      match bfStep c execVal s1 (.taskStates tus) with
+      | (s2, o2, e) => (s2, o1 ++ o2, e)
+  else
+    match bfStep c execVal s (.taskStates tus) with
+    | (s1, o1, some e) => (s1, o1, some e)
+    | (s1, o1, none)   =>
+      match bfPilotStates anyEligible c s1 ups with
+      | (s2, o2, e) => (s2, o1 ++ o2, e)
+
 def bfRun (c : BFCfg) (execVal : Nat) : S → List Op → S × List Out
   | s, []        => (s, [])
   | s, op :: ops =>
